@@ -202,6 +202,16 @@ RAW_DOCS = {
 # documents in which YAML anchors make several places of the configuration ONE Python object after loading: they are
 # valid and complete, so they have to be accepted (compiling one experiment must not change what another one sees)
 SHARED_DOCS = {
+    "a suite named twice in the lists of suites": """
+benchmark_suites:
+  S1: {gauge_adapter: Time, command: c, benchmarks: [b1, b2]}
+  S2: {gauge_adapter: Time, command: d, benchmarks: [b3]}
+executors:
+  E1: {executable: e1}
+experiments:
+  X1: {suites: [S1, S1, S2], executions: [E1]}
+  X2: {executions: [{E1: {suites: [S2, S2]}}]}
+""",
     "execution entry with its own suites shared by two experiments": """
 benchmark_suites:
   S1: {gauge_adapter: Time, command: c, benchmarks: [b1, b2]}
